@@ -810,6 +810,11 @@ def body_C13(ctx):
 def body_C18(ctx):
     n = ctx.n(200, 2000)
     progs = scaffold_batch(ctx, SYNC_KINDS, n, panic_rate=(1, 8), max_depth=3, handler_rate=(1, 2), block_rate=(1, 3))
+    # thread-spawning kinds: a branch panics while a later sibling of the step does not return before the program is over:
+    # the caller must get the panic and not be left blocked behind the sibling
+    import k2
+    progs += [k2.gen_panic_beside_waiter(ctx.rng, "pw%d_%s" % (i, kind), kind, prof)
+              for i, prof in enumerate([(1, 1), (2, 2), (1, 2, 2), (3, 1, 3)]) for kind in ("a0t0s1", "a0t1s1")]
     run_k2(ctx, progs)
     # async variants (incl. the tokio task-spawning ones): one panicking callback, the driven future must panic
     import k2async
